@@ -1354,7 +1354,13 @@ def sg_sosfiltfilt(ex, sos, x, axis=-1, **kw):
         raise Unsupported('sosfiltfilt with an unknown filter')
     x = _arr(ex, x)
     if conc(axis) not in (-1, x.ndim - 1):
-        raise Unsupported('sosfiltfilt along another axis')
+        # filtering along another axis is a different operator on the whole array: an opaque result that equals nothing else
+        k = next(ex.fresh)
+        fr = z3.Function(f'L_axis{conc(axis)}_re!{k}', *([z3.IntSort()] * x.ndim), z3.RealSort())
+        fi = z3.Function(f'L_axis{conc(axis)}_im!{k}', *([z3.IntSort()] * x.ndim), z3.RealSort())
+        if x.kind == 'complex':
+            return Arr(x.shape, lambda idx: Cx(fr(*[tonum(i) for i in idx]), fi(*[tonum(i) for i in idx])), 'complex')
+        return Arr(x.shape, lambda idx: fr(*[tonum(i) for i in idx]), 'float')
     return opaque.apply_last_axis(ex, 'L', sos.params, x)
 
 
